@@ -60,6 +60,10 @@ def make_conn(stream, fail_at=None):
         if st['stream']:
             return AList([st['stream'].pop(0)], 'bytes')
         st['eof_seen'] = True
+        if st.get('reset'):
+            # the peer died (or closed with unread input): the kernel reports a reset instead of an orderly end of stream
+            log_event('read-error', 'ECONNRESET')
+            raise AbsRaise('OSError', node, attrs={'errno': 104, 'args': (104, 'Connection reset by peer'), 'strerror': 'Connection reset by peer'})
         return b''
     conn = pm.AMock('conn', {'fileno': fileno, 'makefile': makefile,
                              'close': lambda i, b, a, k, n: st['closed'].append('socket'),
@@ -90,8 +94,9 @@ def install_select(ai):
     ai.summaries['select.select'] = s_select
 
 
-def build(ai, ctx, stream):
+def build(ai, ctx, stream, reset=False):
     conn = make_conn(stream)
+    conn.state['reset'] = reset
     port = pm.new_port(ai, ctx, 'SocketPort', ['peer', 9999], {'conn': conn}, module=S)
     return port, conn
 
@@ -163,6 +168,26 @@ def r18_1(ctx):
             ctx.require(not any(e[0] == 'blocking-read' for e in oc.log), 'R18.1', f'{inst}.guarded-read', w,
                         'a read(1) is issued without a preceding positive readability poll (it may block forever)', construct=cons + '::unguarded-read')
     ctx.floor('R18.1', n, 24)
+    # the peer dies: the stream ends in a connection reset instead of an orderly end of stream, after a complete message plus k
+    # bytes of the next one - the complete messages come out, iteration ends without an exception, the port is closed
+    for k in (0, 2):
+        holder = {}
+
+        def thunk_rst():
+            port, conn = build(ai, ctx, m1b + m2b[:k], reset=True)
+            holder.update(port=port, conn=conn)
+            ai.sleeps = 0
+            return pm.call(ai, ctx, port, '__iter__')
+        outs = ai.explore(thunk_rst)
+        inst = f'iterate(note_on + {k} bytes, then connection reset)'
+        cons = f'{rc.qname}::connection-reset'
+        oc = c11.one(ctx, 'R18.2', inst, w, outs, cons)
+        if oc is not None:
+            items = oc.value.items if oc.kind == 'return' and isinstance(oc.value, AList) else None
+            ok = oc.kind == 'return' and items is not None and len(items) == 1 and holder['port'].attrs.get('closed') is True \
+                and sorted(holder['conn'].state['closed']) == ['rfile', 'socket', 'wfile']
+            ctx.require(ok, 'R18.2', inst, w, f'the peer dies after a complete message (+{k} bytes): {oc}; closed = {holder["port"].attrs.get("closed")!r}, '
+                        f'released {sorted(holder["conn"].state["closed"])} - expected the one message, a quiet end and a closed port', construct=cons)
     # non-blocking receive on a connection with nothing to read never sleeps / reads
     holder = {}
 
